@@ -65,8 +65,8 @@ theorem C15_solver_failure_iff (step : σ → σ) (ok : σ → Bool) (small : σ
   exact ssLoop_copy_failure step ok small _ 0 y0
 
 /-- ... hence the state of a solver that has given up — the frozen huge value of a finite-time blow-up — is NEVER
-presented as steady, and neither is anything after it: if the solver fails at step `k`, no success is reported at any
-step `n ≥ k`. -/
+presented as steady: if the solver fails at step `k`, no success is reported at step `k` or later (the loop has returned
+at `k`). -/
 theorem C15_failed_solver_never_steady (step : σ → σ) (ok : σ → Bool) (small : σ → σ → Bool) (y0 : σ) (k n : Nat)
     (r : σ) (hk1 : 1 ≤ k) (hk : ok (iter step k y0) = false) (hkn : k ≤ n) :
     ssRun Gen.copies Gen.checks step ok small Gen.maxSteps y0 ≠ .steady n r := by
@@ -180,6 +180,25 @@ i.e. it is a criterion of the form above with `w y1 = max_i |y1_i|` — the scal
 theorem C15_rel_small_is_weighted_abs (tol : Rat) (y2 y1 : List Rat) (h : smallRel tol y2 y1 = true) :
     normSq (vsub y2 y1) ≤ tol * tol * maxSq y1 :=
   smallRel_weighted tol y2 y1 h
+
+/-- non-vacuity of `C15_contraction_close`'s contraction hypothesis: on ℝ the halving relaxation `z ↦ z/2 + 1/2` contracts distances
+to its steady state 1 by `c = 1/2` -/
+example : ∀ z : ℝ, dist (z / 2 + 1 / 2) 1 ≤ (1 / 2) * dist z 1 := by
+  intro z
+  rw [Real.dist_eq, Real.dist_eq]
+  have : z / 2 + 1 / 2 - 1 = (1 / 2) * (z - 1) := by ring
+  rw [this, abs_mul, abs_of_pos (by norm_num : (0 : ℝ) < 1 / 2)]
+
+/-- F-C15-5, THE STROBOSCOPIC CRITERION: the search compares states 100 time units apart, so a state that RETURNS to itself after
+one search step — an undamped orbit whose period divides `step_size` — is reported as steady at the first step, for every
+criterion that calls a state close to itself (any positive tolerance), although it never stops moving. -/
+theorem C15_stroboscopic_false_success (step : σ → σ) (ok : σ → Bool) (small : σ → σ → Bool) (y0 : σ)
+    (hper : step y0 = y0) (hok : ok y0 = true) (hrefl : small y0 y0 = true) :
+    ssRun Gen.copies Gen.checks step ok small Gen.maxSteps y0 = .steady 1 y0 := by
+  rw [C15_loop_copies, C15_loop_checks_solver]
+  have : Gen.maxSteps = (Gen.maxSteps - 1) + 1 := by decide
+  rw [this]
+  simp [ssRun, ssLoop, hper, hok, hrefl]
 
 /-- FAILURE PROPAGATES: when the loop finds no steady state from the state the simulator holds (`NoSteadyState`) or the
 solver gives up (`IntegrationFailure`), `simulate_to_steady_state().get_result()` is that error (never a state) and the scan row is the NaN
